@@ -110,7 +110,7 @@ def gen_cases(rng, tier):
         calls = []
         for _ in range(rng.randint(1, 25)):
             adv = rng.choice([0, 0, 0, 8, T - 2, T, T + 2, 2 * T, 2]) if rng.random() < 0.6 else 0
-            calls.append([adv, rng.randrange(len(ARGS)), rng.choice(["pos", "kw", "mixed", "omit"])])
+            calls.append([adv, rng.randrange(len(ARGS)), rng.choice(["pos", "kw", "mixed", "omit", "kw_omit", "kw"])])
         cases.append({"kind": "simple", "secs": secs, "spelling": rng.choice(["int", "float", "timedelta", "str", "callable", "callable_result", "callable_strict"]),
                       "cond": rng.choice(CONDS), "cond_variant": rng.randrange(10), "calls": calls, "script": [rng.choice(SCRIPT) for _ in range(26)]})
     for _ in range(n // 2):
@@ -195,6 +195,7 @@ def run_impl(case):
                     if form == "pos": r = await f(x, y)
                     elif form == "kw": r = await f(x=x, y=y)
                     elif form == "mixed": r = await f(x, y=y)
+                    elif form == "kw_omit": r = await (f(x=x) if y == 0 else f(x=x, y=y))      # keyword-only, the defaulted parameter left out
                     else: r = await (f(x) if y == 0 else f(x, y))
                     res = ["val", _san(r)]
                 except ExcA1: res = ["exc", 3]
